@@ -1,0 +1,30 @@
+//go:build verif
+
+package brigadier
+
+import (
+	"sort"
+
+	"go.minekube.com/gate/pkg/gate/proto"
+)
+
+// VerifArgumentIDs lists the identifiers of every registered argument property codec (read-only view of the
+// unexported registry; no logic of its own).
+func VerifArgumentIDs() []string {
+	ids := make([]string, 0, len(registry.byIdentifier))
+	for id := range registry.byIdentifier {
+		ids = append(ids, id)
+	}
+	sort.Strings(ids)
+	return ids
+}
+
+// VerifArgumentWireID returns the numeric wire id of an argument identifier at a 1.19+ protocol.
+func VerifArgumentWireID(id string, p proto.Protocol) (int, bool) {
+	i := registry.byIdentifier[id]
+	if i == nil {
+		return 0, false
+	}
+	v, ok := i.idByProtocol[p]
+	return v, ok
+}
